@@ -35,6 +35,8 @@ EXPECTED = {
     "move_file": ["rename"],
     "move_dir": ["rename"],
 }
+# equivalent single-probe forms: Path::exists() is defined as fs::metadata(path).is_ok() (that exists never fails is a rule of its own)
+ALTERNATIVES = {"exists": (["stat"],)}
 NOT_OVERRIDDEN = ["set_creation_time"]
 
 
@@ -147,7 +149,7 @@ def table_o_shape(facts, rep, rule, w):
         effs = effects_of(facts, inter, b)
         got = sorted(e[0] for e in effs)
         n += 1
-        ok = got == sorted(exp)
+        ok = got == sorted(exp) or any(got == sorted(alt) for alt in ALTERNATIVES.get(op, ()))
         rep.ob(rule, b.id, "%s performs exactly %s" % (op, "+".join(exp)), ok,
                "effects: %s" % got if ok else
                "filesystem effects of PhysicalFS::%s are %s, expected %s: the operation's preconditions/effect differ "
